@@ -100,6 +100,26 @@ def classify(ctx, fn):
                 return
             if k == "switch":
                 d = strip(info["discr"])
+                # a decision on one byte of the key (`match *key { CONST => .. }` is lowered to a
+                # byte-by-byte decision tree): split the product set on that byte
+                kb = None
+                if d[0] == "cindex" and d[1] == ("param", 1) and not d[3]:
+                    kb = d[2]
+                elif d[0] == "index" and d[1] == ("param", 1) and d[2][0] == "int":
+                    kb = d[2][1]
+                if kb is not None and 0 <= kb < 32:
+                    used = set()
+                    for v_, tgt in info["targets"]:
+                        ns = list(sets)
+                        ns[kb] = sets[kb] & frozenset([v_])
+                        used.add(v_)
+                        if ns[kb]:
+                            explore(tgt, ns, seen | {bb})
+                    ns = list(sets)
+                    ns[kb] = sets[kb] - frozenset(used)
+                    if ns[kb]:
+                        explore(info["otherwise"], ns, seen | {bb})
+                    return
                 neg = False
                 while d[0] == "unop" and d[1] == "Not":
                     neg = not neg
@@ -348,7 +368,10 @@ def check(ctx, rep):
     # ---- the validity decision inside from_le_bytes: a call to a local validator whose Result is matched
     validator = None
     for bb, i in se.term_info.items():
-        if i.get("k") == "call" and i["name"] in fb.bodies and strip(i["args"][0]) == ("param", 1):
+        a0 = i["args"][0] if i.get("k") == "call" and i.get("args") else None
+        if a0 is not None and a0[0] == "ref" and a0[1][0] == "local":
+            a0 = se.read(se.in_state.get(bb, {}), a0[1])  # inlined callee: the argument is still a place
+        if a0 is not None and i["name"] in fb.bodies and strip(a0) == ("param", 1):
             out = fb.ty(fb.body(i["name"]).d["output"])
             if out.s.startswith("std::result::Result<(), error::InvalidPublicKeyError>"):
                 validator = (bb, i)
@@ -435,6 +458,20 @@ def check(ctx, rep):
                     esame = esame and "error::InvalidPublicKeyError>" in out_f and "error::InvalidPublicKeyError>" in out_v
                     esame = esame and not util.blocks_constructing(body, "error::InvalidPublicKeyError")
             good = ident and gate and epass and esame
+    elif validator is not None and len(aggs) == 0:
+        # combinator spelling: validator(&key).map(|()| Self { key }) - Result::map leaves Err(e)
+        # as it is and builds the key only on Ok
+        r = strip(se.ret)
+        V = strip(validator[1]["term"])
+        Vr = strip(validator[1].get("ret", validator[1]["term"]))
+        if util.is_call(r, "std::result::Result::<T, E>::map") and strip(r[2][0]) in (V, Vr):
+            mi = se.term_info.get(r[3][1], {})
+            cl = mi["args"][1] if mi.get("k") == "call" and len(mi.get("args", ())) == 2 else ("?",)
+            val = util.closure_value(ctx, cl, (("zst", "()"),))
+            val = util.resolve_locals(se, r[3][1], val) if val is not None else None
+            good = val is not None and val[0] == "agg" and val[2] == PK and val[4][0] == ("param", 1)
+            names = [i["name"] for i in se.term_info.values() if i.get("k") == "call"]
+            good = good and sorted(names) == sorted([validator[1]["name"], "std::result::Result::<T, E>::map"])
     elif validator is None and len(aggs) == 1:
         loc, v = se.assigns[(aggs[0][0], aggs[0][1])]
         good = strip(v[4][0]) == ("param", 1)
@@ -445,7 +482,7 @@ def check(ctx, rep):
     # ---- every construction validated
     sites = util.aggregates(fb, PK)
     allowed = {FN, PK + "::client_try_from_bigint"}
-    bad = [b.path for b, _, _, _ in sites if b.path not in allowed]
+    bad = [b.path for b, _, _, _ in sites if b.path not in allowed and not (b.kind == "Closure" and b.d.get("parent") in allowed)]
     rep.check(bool(sites) and not bad, "validated", PK, "who-may-construct", "PublicKey constructed only in %s" % sorted({b.path for b, _, _, _ in sites}), "PublicKey is constructed without validation in %s" % bad)
     pubf = [f["name"] for f in fb.adt_fields(PK) if f["pub"]]
     rep.check(not pubf, "validated", PK, "private-fields", "field private", "public field %s" % pubf)
